@@ -47,9 +47,10 @@ func WithStack(err error) error {
 	if err == nil {
 		return nil
 	}
-	// use noError in case anything along err's chain has a custom Is that calls Error() for some
-	// reason.
-	if errors.Is(err, withStack{inner: noError}) {
+	// errors.Is cannot find a withStack (the type is not comparable and has no Is method), so look
+	// for one along err's chain with errors.As.
+	var ws withStack
+	if errors.As(err, &ws) {
 		return err
 	}
 	var buf [64]uintptr
